@@ -270,6 +270,7 @@ TitleOf(w, body) ==
     CASE w \in {"std", "upper", "attr", "late", "oneline", "twolines", "bom"} -> [complete |-> TRUE, text |-> Collapse(body, FALSE)]
       [] w = "two"  -> [complete |-> TRUE, text |-> Collapse(body \o <<"w3">>, FALSE)]   \* the rest of the line is scanned too
       [] w \in {"stray", "selfclosed"} -> [complete |-> TRUE, text |-> ""]               \* an end tag alone completes an EMPTY title
+      [] w = "incomment" /\ "comment" \in Range(body) -> [complete |-> TRUE, text |-> ""] \* the inner --> ends the comment: stray end tag
       [] OTHER -> NoTitle
 \* the promise speaks about these
 TitleDocumented(w, body) == w \in {"std", "upper", "attr", "late", "oneline", "twolines", "bom"} /\ Len(body) > 0
